@@ -119,7 +119,7 @@ def _point_job(job):
     out = []
     for k0, (klass, lo, hi, pts) in enumerate(items):
         k = start + k0                   # the item's own index (jobs may be handed their items one at a time)
-        out += K.point_events(klass, lo, hi, pts, 0, workdir, compact=(k % 3 == 1), final_newline=(k % 5 != 2))
+        out += K.point_events(klass, lo, hi, pts, 0, workdir, compact=(k % 3 == 1), final_newline=(k % 5 != 2), default_span=(k % 7 == 3))
     return out
 
 
